@@ -107,6 +107,14 @@ class Problem:
         sims = [x @ self.W @ d / math.sqrt(q) / math.sqrt(d @ self.W @ d) for d in self.D]
         return float(sum(sims) / len(sims))
 
+    def defined(self, theta):
+        """is the similarity of the prediction for theta defined (non-zero norm in the criterion's
+        inner product)?  For an all-zero (or, under the correlation criteria, constant) prediction it
+        is 0/0: the library answers 0 (plain criteria, whitened without sigma_k) or nan."""
+        x = np.asarray(theta, dtype=float) @ self.A
+        sc = max(float(np.max(np.abs(np.einsum('ij,jk,ik->i', self.A, self.W, self.A)))), 1e-300)
+        return bool(x @ self.W @ x > 1e-12 * sc)
+
     def rank_ok(self):
         g = self.A @ self.W @ self.A.T
         return np.linalg.matrix_rank(g) == g.shape[0] and np.linalg.cond(g) < 1e6
@@ -176,3 +184,40 @@ def competitors(rng, theta, k, nonneg, n_rand=12):
     if nonneg:
         out = [np.abs(o) for o in out]
     return out
+
+
+def active_set_maxdrop(g, c):
+    """own replica of the Lawson-Hanson active-set method on the normal equations (G, c):
+    returns the largest number of coefficients dropped within one outer iteration (coverage
+    tag only; not used for judging results)"""
+    g = np.asarray(g, dtype=float)
+    c = np.asarray(c, dtype=float)
+    k = len(c)
+    x = np.zeros(k)
+    p = np.zeros(k, bool)
+    w = c.copy()
+    tol = 100 * np.finfo(float).eps * max(float(np.max(np.abs(c))), 1e-300)
+    best = 0
+    for _ in range(3 * k):
+        if p.all() or np.max(w[~p]) <= tol:
+            break
+        p[np.where(~p)[0][np.argmax(w[~p])]] = True
+        drops = 0
+        try:
+            s = np.linalg.solve(g[p][:, p], c[p])
+            while np.any(s < 0) and drops <= k:
+                xp = x[p]
+                al = np.where(s < 0, xp / np.where(xp - s == 0, 1, xp - s), np.inf)
+                i = int(np.argmin(al))
+                x[p] = xp + al[i] * (s - xp)
+                gi = np.where(p)[0][i]
+                x[gi] = 0
+                p[gi] = False
+                drops += 1
+                s = np.linalg.solve(g[p][:, p], c[p]) if p.any() else np.zeros(0)
+        except np.linalg.LinAlgError:
+            return best
+        x[p] = s
+        w = c - g @ x
+        best = max(best, drops)
+    return best
